@@ -186,9 +186,16 @@ def sub_examples(ctx):
             for o in orders:
                 for grid in (("coarse", 3, 300.0),) if ctx.quick else (("coarse", 3, 300.0), ("lowT", 6, 0.5)):
                     jobs.append((n, m, o, grid))
+    import gc
     for j, (name, m, order, (gname, nt, dt)) in enumerate(jobs):
-        if j % ctx.nshards != ctx.shard:
+        # cij keeps three (nt, ntv, nq, np) arrays per task: diopside (150 q-points, 60 modes) needs several GB per
+        # calculation, so it runs on two shards only (and on the coarse temperature grid); akimotoite on all shards
+        if name == "diopside":
+            if ctx.shard >= 2 or j % 2 != ctx.shard or gname != "coarse":
+                continue
+        elif j % ctx.nshards != ctx.shard:
             continue
+        gc.collect()
         if ctx.is_excluded("C12/class:interpolator=%s" % m):
             continue
         try:
